@@ -495,12 +495,20 @@ func (x *Exec) loopsOf(fr *frame) map[*ssa.BasicBlock]*load.LoopInfo {
 func (x *Exec) execBlock(fr *frame, st *State, b *ssa.BasicBlock, pred *ssa.BasicBlock, depth int) []outcome {
 	if li, ok := x.loopsOf(fr)[b]; ok {
 		if fr.parent != nil {
-			// loop inside an inlined closure: cut without invariant (havoc what it assigns), sound but weak
+			// loop inside an inlined closure: cut at the header; invariants come from a `loop <closure>:<n>` block if present
+			var lc *gcl.Loop
+			name := fmt.Sprintf("%s:%d", fr.fn.Name(), li.Ordinal)
+			if x.contract != nil && x.contract.ClosureLoops != nil {
+				lc = x.contract.ClosureLoops[name]
+			}
 			fromBack := pred != nil && li.Body[pred]
 			if fromBack {
+				x.assertInvNamed(fr, st, name, lc, "inv-step")
 				return nil
 			}
+			x.assertInvNamed(fr, st, name, lc, "inv-init")
 			st = x.havocLoop(fr, st, li)
+			x.assumeInv(fr, st, li, lc)
 			st.trace = append(st.trace, fmt.Sprintf("%s.loop%d", fr.fn.Name(), li.Ordinal))
 			return x.execInstrs(fr, st, b, 0, pred, depth)
 		}
@@ -552,6 +560,24 @@ func (x *Exec) assertInv(fr *frame, st *State, li *load.LoopInfo, lc *gcl.Loop, 
 			label = fmt.Sprintf("inv%d", i)
 		}
 		x.emit(&Obligation{Kind: kind, Label: fmt.Sprintf("loop%d.%s", li.Ordinal, label), Facts: st.facts, Goal: t, Source: inv.Src}, st)
+	}
+}
+
+func (x *Exec) assertInvNamed(fr *frame, st *State, name string, lc *gcl.Loop, kind string) {
+	if lc == nil {
+		return
+	}
+	for i, inv := range lc.Invariants {
+		t, err := x.evalClause(inv.E, st, x.entry, fr, nil)
+		if err != nil {
+			x.fatal("loop %s invariant %q: %v", name, inv.Src, err)
+			continue
+		}
+		label := inv.Label
+		if label == "" {
+			label = fmt.Sprintf("inv%d", i)
+		}
+		x.emit(&Obligation{Kind: kind, Label: fmt.Sprintf("loop-%s.%s", name, label), Facts: st.facts, Goal: t, Source: inv.Src}, st)
 	}
 }
 
